@@ -695,3 +695,10 @@ Example ex_rank_orders :
   resolve_rank_orders [("A", ["K"; "M"]); ("B", ["K"; "N"]); ("Z", ["M"; "N"])] [("B", ["N"; "K"])] =
   [("A", ["K"; "M"]); ("B", ["N"; "K"]); ("Z", ["M"; "N"])].
 Proof. reflexivity. Qed.
+
+(* Partitioning.get_all_parts() also lists the intermediates (K1I) of an occupancy stack; an entry whose
+   root is not in the rank list is inert, and part_loop_expand covers it *)
+Example ex_intermediates_inert :
+  NoDup (map fst [("K1I", 1); ("K", 2)]) /\ fresh_b [("K1I", 1); ("K", 2)] = true /\
+  part_loop 2 [("K1I", 1); ("K", 2)] ["M"; "K"; "N"] = Some (expand [("K", 2)] ["M"; "K"; "N"]).
+Proof. split; [repeat constructor; simpl; intuition congruence|]. split; vm_compute; reflexivity. Qed.
